@@ -220,7 +220,8 @@ func (m *docker1SignedManifest) SetOrig(origIn any) error {
 		// TODO: error?
 		orig.MediaType = mediatype.Docker1ManifestSigned
 	}
-	mj, err := json.Marshal(orig)
+	// MarshalJSON has a pointer receiver, json.Marshal of the value would drop the signatures
+	mj, err := orig.MarshalJSON()
 	if err != nil {
 		return err
 	}
